@@ -494,6 +494,11 @@ def check_C08(tr):
         c, m = op["c"], op["msg"]
         b = st.bind_pre.get(c)
         e = st.err(c)
+        if b and e in VALIDATION and expected_rejection(st, op) is None:
+            # by the history this close is in order (first close of the connection, naming or remembering a
+            # mailbox), yet it was refused
+            out.append(Finding("C08", "close always completes and is answered closed", st.i, {"error": e, "events": st.raw_events}))
+            continue
         if not b or (e is not None and e != "crowded"):
             continue
         mb = close_target(st)
